@@ -103,79 +103,6 @@ theorem trxcon_tx_overflow (tn fn pwr : Nat) (bits : List Nat) (h1 : 506 < bits.
 
 /-! ## C05: the TRXC commands trxcon emits -/
 
-/-- a decimal argument: digits, optionally with a minus sign -/
-def IsDecTok (a : List Nat) : Prop :=
-  (a ≠ [] ∧ ∀ c ∈ a, isDigit c = true) ∨ (∃ t, a = 45 :: t ∧ t ≠ [] ∧ ∀ c ∈ t, isDigit c = true)
-
-/-- `CMD <VERB>[ <arg>]*`: upper-case verb, single blanks, decimal arguments -/
-def WellFormedCmd (s : List Nat) : Prop :=
-  ∃ (verb : List Nat) (args : List (List Nat)), s = str "CMD " ++ verb ++ args.flatMap (fun a => 32 :: a) ∧ verb ≠ [] ∧
-    (∀ c ∈ verb, 65 ≤ c ∧ c ≤ 90) ∧ ∀ a ∈ args, IsDecTok a
-
-theorem fmtU_tok (n : Nat) : IsDecTok (fmtU n) :=
-  .inl ⟨decFuel_ne_nil 9 _, fmtU_chars n⟩
-
-theorem fmtD_tok (x : Int) : IsDecTok (fmtD x) := by
-  simp only [fmtD]
-  split
-  · exact .inr ⟨_, rfl, decFuel_ne_nil 9 _, decFuel_digits 10 _⟩
-  · exact .inl ⟨decFuel_ne_nil 9 _, decFuel_digits 10 _⟩
-
-theorem verb_ne (s : String) (h : (str s).length ≠ 0) : str s ≠ [] := by
-  intro e; rw [e] at h; exact h rfl
-
-theorem upper_of_all (s : String) (h : (str s).all (fun c => decide (65 ≤ c) && decide (c ≤ 90)) = true) :
-    ∀ c ∈ str s, 65 ≤ c ∧ c ≤ 90 := by
-  intro c hc
-  have := List.all_eq_true.mp h c hc
-  simpa using this
-
-/-- the verbs and argument tokens of `emitSpec` are upper-case / decimal -/
-theorem emitSpec_wf (c : PhyCmd) : ∀ e ∈ emitSpec c, e.verb ≠ [] ∧ (∀ c ∈ e.verb, 65 ≤ c ∧ c ≤ 90) ∧
-    ∀ a ∈ e.args, IsDecTok a := by
-  intro e he
-  cases c with
-  | reset =>
-    simp only [emitSpec, List.mem_cons, List.mem_nil_iff, or_false] at he
-    rcases he with rfl | rfl
-    · exact ⟨verb_ne "POWEROFF" (by decide), upper_of_all "POWEROFF" (by decide), by simp⟩
-    · exact ⟨verb_ne "ECHO" (by decide), upper_of_all "ECHO" (by decide), by simp⟩
-  | poweron =>
-    simp only [emitSpec, List.mem_singleton] at he; subst he
-    exact ⟨verb_ne "POWERON" (by decide), upper_of_all "POWERON" (by decide), by simp⟩
-  | poweroff =>
-    simp only [emitSpec, List.mem_singleton] at he; subst he
-    exact ⟨verb_ne "POWEROFF" (by decide), upper_of_all "POWEROFF" (by decide), by simp⟩
-  | measure a =>
-    simp only [emitSpec, List.mem_singleton] at he; subst he
-    exact ⟨verb_ne "MEASURE" (by decide), upper_of_all "MEASURE" (by decide), by simp [fmtU_tok]⟩
-  | setfreqH0 a =>
-    simp only [emitSpec, List.mem_cons, List.mem_nil_iff, or_false] at he
-    rcases he with rfl | rfl
-    · exact ⟨verb_ne "RXTUNE" (by decide), upper_of_all "RXTUNE" (by decide), by simp [fmtU_tok]⟩
-    · exact ⟨verb_ne "TXTUNE" (by decide), upper_of_all "TXTUNE" (by decide), by simp [fmtU_tok]⟩
-  | setfreqH1 hsn maio n ma =>
-    simp only [emitSpec, List.mem_singleton] at he; subst he
-    refine ⟨verb_ne "SETFH" (by decide), upper_of_all "SETFH" (by decide), ?_⟩
-    intro a ha
-    simp only [List.mem_cons, List.mem_flatMap] at ha
-    rcases ha with rfl | rfl | ⟨x, _, hx⟩
-    · exact fmtU_tok _
-    · exact fmtU_tok _
-    · simp only [pairToks, List.mem_cons, List.mem_nil_iff, or_false] at hx
-      rcases hx with rfl | rfl <;> exact fmtU_tok _
-  | setslot tn pchan =>
-    simp only [emitSpec] at he
-    split at he
-    · simp only [List.mem_singleton] at he; subst he
-      exact ⟨verb_ne "SETSLOT" (by decide), upper_of_all "SETSLOT" (by decide), by simp [fmtU_tok]⟩
-    · simp at he
-  | setta ta =>
-    simp only [emitSpec, List.mem_singleton] at he; subst he
-    exact ⟨verb_ne "SETTA" (by decide), upper_of_all "SETTA" (by decide), by simp [fmtD_tok]⟩
-  | raw ty => simp [emitSpec] at he
-
-
 /-- **What trxcon emits.** For every PHYIF command the L1 side may issue (`ValidCmd`: ARFCNs that
 `gsm_arfcn2freq10` defines, a `gsm_phys_chan_config` inside `chan_types[]`, a mobile allocation
 whose text fits `ma_buf`), starting with an empty command queue, `trx_if_handle_phyif_cmd` returns 0,
@@ -292,6 +219,41 @@ theorem trxcon_accepts_rsp (t : Trx) (tcm : CtrlMsg) (q : List CtrlMsg) (verb re
     obtain ⟨t', h1, h2, _, h4⟩ := replyOutcome_reject t tcm q (verb ++ rest) (replyTo verb rest results s) s hrej
     exact ⟨t', h1, h2, h4⟩
 
+/-- …in particular for every command trxcon emits (`emitSpec`) and the reply the toolkit builds from
+it — `RSP <VERB> <status>` followed by the original arguments and optional results, NUL — as long
+as the reply fits one `read()` (always the case for a status of up to six characters and no
+results: 1015 + 2 + 6 = 1023). -/
+theorem trxcon_accepts_emitted (t : Trx) (c : PhyCmd) (hv : ValidCmd c) (e : Emitted) (he : e ∈ emitSpec c)
+    (q : List CtrlMsg) (results : List Nat) (s : Int)
+    (hq : t.queue = e.msg :: q) (hres : ∀ ch ∈ results, ch ≠ 0) (hnd : NoDigitHead results)
+    (hs1 : -2147483648 ≤ s) (hs2 : s ≤ 2147483647)
+    (hlen : e.text.length + 2 + (fmtD s).length + results.length ≤ 1023)
+    (hst : t.state < 4) (hps : t.prevState < 4) :
+    let reply := replyTo e.verb (e.args.flatMap (fun a => 32 :: a)) results s
+    (¬ (s ≠ 0 ∧ e.critical ≠ 0) →
+      ∃ t', cReadCb t reply = .ok (0, t') ∧ t'.queue = q ∧ (s ≠ 0 → t'.elog = true)) ∧
+    ((s ≠ 0 ∧ e.critical ≠ 0) →
+      ∃ t', cReadCb t reply = .ok (-eIO, t') ∧ t'.queue = t.queue ∧
+        t'.ev = t.ev ++ [Event.timerDel, Event.term termError]) := by
+  intro reply
+  obtain ⟨_, hup, _⟩ := emitSpec_wf c e he
+  obtain ⟨_, _, hnz⟩ := trxcon_cmd_wellformed c hv e he
+  have hcap : trxcBufSize = 1024 := by decide
+  have hh : ReplyHyp e.verb (e.args.flatMap (fun a => 32 :: a)) results := by
+    refine ⟨?_, ?_, hres, ?_⟩
+    · intro ch hch; have := hup ch hch; omega
+    · intro ch hch; exact hnz ch (by simp only [Emitted.text, List.mem_append]; exact .inr hch)
+    · cases hargs : e.args with
+      | nil => simpa using hnd
+      | cons a as => simp only [List.flatMap_cons, List.cons_append]; exact noDigitHead_cons 32 _ (by decide)
+  have hl : reply.length ≤ trxcBufSize - 1 := by
+    have h4 : (str "RSP ").length = 4 := by decide
+    have h4' : (str "CMD ").length = 4 := by decide
+    simp only [Emitted.text, List.length_append] at hlen
+    simp only [reply, replyTo, List.length_append, List.length_singleton, hcap]
+    omega
+  exact trxcon_accepts_rsp t e.msg q e.verb _ results s hq rfl hh hs1 hs2 hl hst hps
+
 /-- **MEASURE**: the reply `RSP MEASURE 0 <kHz> <dBm>\0` to `CMD MEASURE <kHz>` for an ARFCN of the
 GSM bands hands exactly (ARFCN, dBm) to `trxcon_phyif_handle_rsp` (`sscanf("%u %d")` at `buf + 14`,
 `/ 100`, `gsm_freq102arfcn`). -/
@@ -359,21 +321,6 @@ example : cRx (layoutRx ⟨1, 5, 7, -60, 5, false, .gmsk 0, 0, 0, some (List.rep
 example : cTx ⟨3, 42, 10, [0, 1, 1], 3⟩ = .sent 0 [3, 0, 0, 0, 42, 10, 0, 1, 1] := by decide +kernel
 
 /-! ## non-vacuity: concrete commands, replies, the F6 witnesses on the fixed code -/
-
-def t0 : Trx := { state := stIdle, prevState := stOffline }
-def tWait (q : List CtrlMsg) : Trx := { queue := q, state := stRspWait, prevState := stIdle }
-/-- observations of a result: `none` = fault -/
-def sentLens (r : Except Fault (Int × Trx)) : Option (Int × List Nat) :=
-  match r with | .ok (rc, t) => some (rc, t.sent.map List.length) | .error _ => none
-def outcome (r : Except Fault (Int × Trx)) : Option (Int × Nat × Bool × Option (Nat × Int)) :=
-  match r with | .ok (rc, t) => some (rc, t.queue.length, t.elog, t.rsp) | .error _ => none
-def texts (r : Except Fault (Int × Trx)) : Option (Int × List (List Nat) × List (List Nat)) :=
-  match r with | .ok (rc, t) => some (rc, t.queue.map (·.cmd), t.sent) | .error _ => none
-def isCrash (r : Except Fault (Int × Trx)) : Bool :=
-  match r with | .error .crash => true | _ => false
-
-instance : DecidablePred ValidCmd := fun c => by
-  cases c <;> simp only [ValidCmd] <;> infer_instance
 
 example : ValidCmd (.setfreqH1 63 63 64 (List.range' 1 64)) := by decide +kernel
 example : sentLens (cPhyCmd t0 (.setfreqH1 63 63 64 (List.range' 1 64))) = some (0, [912]) := by decide +kernel
